@@ -10,8 +10,13 @@
      tables define at least one category) the categories decide, the requester's declaration
      acting through ONLY_REQUIRED; otherwise the requester's declaration decides when there is
      one.  (pysaml2's documented design: docs/howto/config.rst "Entity Categories".)
-   * "failing on missing attributes is in effect": fail_on_missing_requested of the applicable
-     section is not False and the requester's declaration is what decides (no entity categories).
+   * "failing on missing attributes is in effect": the caller's explicit choice when there is one
+     (the fail_on_missing argument of Policy.filter / restrict / Assertion.apply_policy;
+     best_effort=True given to Server.create_authn_response is the choice "do not fail"), else
+     fail_on_missing_requested of the applicable section is not False; and the requester's
+     declaration is what decides (no entity categories).
+   * a requester about which nothing is known (the policy has no metadata store) is in no entity
+     category: only what the configured categories release to everybody (the "" key) passes.
    * "a required attribute cannot be supplied": no identity attribute is designated by it, or it
      lists values and no designated identity attribute holds any of them.
    * an error (MissingValue or any other exception) releases nothing and always satisfies the
@@ -40,29 +45,32 @@ Record finput := {
   f_pol : policy;                (* release policy of the IdP / AA *)
   f_sp : string;                 (* requester *)
   f_mds : bool;                  (* the policy can consult a metadata store *)
-  f_ecs : list string;           (* entity categories of the requester (metadata) *)
+  f_ecs : list string;           (* entity categories of the requester (metadata); [] when nothing is known *)
   f_ra : option string;          (* registration authority of the requester (metadata) *)
   f_req : list reqattr;          (* declared required attributes (incl. subject-id requirements) *)
-  f_opt : list reqattr           (* declared optional attributes *)
+  f_opt : list reqattr;          (* declared optional attributes *)
+  f_fo : option bool             (* the caller's explicit choice about failing on missing attributes *)
 }.
 
 (* what each exercised entry point is asked *)
 Definition foa_policy (fail : bool) : policy :=
   Some [("default", Some {| s_ar := None; s_fail := Some fail; s_ecs := []; s_bare := false |})].
 
-Definition of_md (x : input) (req opt : list reqattr) : finput :=
+Definition of_md (x : input) (req opt : list reqattr) (fo : option bool) : finput :=
   {| f_ident := i_ident x; f_pol := i_pol x; f_sp := i_sp x;
      f_mds := match i_md x with Some _ => true | None => false end;
      f_ecs := match i_md x with Some m => md_ecs m | None => [] end;
-     f_ra := eff_ra (i_md x); f_req := req; f_opt := opt |}.
+     f_ra := eff_ra (i_md x); f_req := req; f_opt := opt; f_fo := fo |}.
 
 Definition flat (x : input) : finput :=
   match i_entry x with
   | EFoa fail req opt =>
       {| f_ident := i_ident x; f_pol := foa_policy fail; f_sp := "default"; f_mds := false;
-         f_ecs := []; f_ra := None; f_req := req; f_opt := opt |}
-  | EFilter req opt => of_md x req opt
-  | _ => of_md x (eff_required (i_md x)) (eff_optional (i_md x))
+         f_ecs := []; f_ra := None; f_req := req; f_opt := opt; f_fo := None |}
+  | EFilter req opt fo => of_md x req opt fo
+  | ERestrict fo | EApply fo => of_md x (eff_required (i_md x)) (eff_optional (i_md x)) fo
+  (* best_effort: the caller asks not to fail *)
+  | EServer be => of_md x (eff_required (i_md x)) (eff_optional (i_md x)) (if be then Some false else None)
   end.
 
 (* ---- most specific applicable section ------------------------------------------------- *)
@@ -90,9 +98,13 @@ Definition the_ar (x : finput) : option restr :=
   match the_section x with Some s => s_ar s | None => None end.
 
 Definition fail_flag (x : finput) : bool :=
-  match the_section x with
-  | Some s => match s_fail s with Some b => b | None => true end
-  | None => true
+  match f_fo x with
+  | Some b => b
+  | None =>
+      match the_section x with
+      | Some s => match s_fail s with Some b => b | None => true end
+      | None => true
+      end
   end.
 
 Definition opt_list {A : Type} (o : option A) : list A := match o with Some a => [a] | None => [] end.
@@ -165,8 +177,7 @@ Section Spec.
 
   (* some entry grants it and no later no-aggregation entry that grants anything resets it *)
   Definition ec_name_ok (x : finput) (k : string) : Prop :=
-    f_mds x = true
-    /\ exists pre e post, the_entries x = pre ++ e :: post
+    exists pre e post, the_entries x = pre ++ e :: post
         /\ grants x e (lower k)
         /\ forall e', In e' post -> ec_no_agg e' = true -> forall n, ~ grants x e' n.
 
@@ -252,7 +263,7 @@ Section Spec.
         || ec_scan x n post
     end.
   Definition ec_name_ok_b (x : finput) (k : string) : bool :=
-    f_mds x && ec_scan x (lower k) (the_entries x).
+    ec_scan x (lower k) (the_entries x).
 
   Definition unsuppliable_b (ident : ava) (d : reqattr) : bool :=
     forallb (fun e => negb (designates_b d (fst e))
@@ -284,23 +295,26 @@ Section Spec.
 
   Definition spec_b (x : input) (o : output) : bool := spec_fb (flat x) o.
 
-  (* ---- the two input classes on which the code (hence the faithful model) fails the property *)
+  (* ---- the input classes of the two repaired findings C10-F1 / C10-F2.  They are no longer
+     excluded from anything; Corr.cls still names them so that a regression is reported with its
+     finding id (a "fixed" finding seen again is a VIOLATION). *)
   (* class 1: the request goes through Server._authn_response and Policy.restrict raises MissingValue *)
   Definition class1 (x : input) : bool :=
     match i_entry x with
-    | EServer => match restrict rmatch ectab (i_ident x) (i_pol x) (i_sp x) (i_md x) with
-                 | Missing => true
-                 | _ => false
-                 end
+    | EServer _ => match restrict rmatch ectab (i_ident x) (i_pol x) (i_sp x) (i_md x) None with
+                   | Missing => true
+                   | _ => false
+                   end
     | _ => false
     end.
   (* class 2: entity categories are configured but the Policy has no metadata store *)
   Definition class2 (x : input) : bool :=
     negb (is_nil (the_entries (flat x))) && negb (f_mds (flat x)).
+
   (* not a finding but a stated input assumption: with entity categories in force the identity has
      no attribute whose name is the empty string (the code uses "" as a marker in that dict) *)
   Definition wf (x : input) : bool :=
     is_nil (the_entries (flat x)) || negb (mem "" (keys (i_ident x))).
 
-  Definition guard (x : input) : bool := negb (class1 x) && negb (class2 x) && wf x.
+  Definition guard (x : input) : bool := wf x.
 End Spec.
